@@ -143,7 +143,8 @@ fn check(input: &str, cuts: &[usize], opts: &HtmlOpts, st: &mut Stats) {
             st.sample(json!({"input": input, "tree": dump_html(&t)}));
         }
     } else {
-        st.count("run_panicked(C04's business)");
+        st.count("run_panicked");
+        st.violation("parse-panicked", &format!("input={} cuts={:?}: parse_document panicked, so there is no document skeleton", show(input), &cuts[..cuts.len().min(6)]), json!({"input": input, "cuts": cuts, "scripting": opts.scripting}));
     }
     // RcDom through the public driver
     let scripting = opts.scripting;
